@@ -126,6 +126,7 @@ def install():
     rt.install_reduction_patches()
     rt.install_read_csv_patch()
     rt.install_assign_patch()
+    rt.install_series_ctor_patch()
     # environment stub: logging is a no-op in symbolic workers (its %-formatting of
     # proxies would otherwise demand machine numbers); the replays log as usual
     import logging
